@@ -26,6 +26,50 @@ func clampedProjectionRule(p *core.Program, r *core.Report, rule string, targets
 			continue
 		}
 		key := short(fn)
+		// the projection may have been moved into a helper of the package (closestOnSegment(a, b, p) (x, y)): the
+		// kernel is then the function, reached from the target, that forms the quotient and tests it
+		hasParam := func(f *ssa.Function) bool {
+			for _, b := range f.Blocks {
+				for _, in := range b.Instrs {
+					q, ok := in.(*ssa.BinOp)
+					if !ok || q.Op != token.QUO || !isFloat(q.Type()) {
+						continue
+					}
+					for _, rf := range eng.Referrers(q) {
+						if c, ok := rf.(*ssa.BinOp); ok && eng.IsOrderedCmp(c.Op) {
+							if k, ok := c.Y.(*ssa.Const); ok && k.Value != nil && (k.Float64() == 0 || k.Float64() == 1) {
+								return true
+							}
+						}
+					}
+				}
+			}
+			return false
+		}
+		if !hasParam(fn) {
+			frontier := []*ssa.Function{fn}
+			seenF := map[*ssa.Function]bool{fn: true}
+			for depth := 0; depth < 2 && !hasParam(fn); depth++ {
+				var next []*ssa.Function
+				for _, f := range frontier {
+					for _, c := range eng.Calls(f) {
+						g := c.Common().StaticCallee()
+						if g == nil || seenF[g] || g.Pkg != f.Pkg || len(g.Blocks) == 0 {
+							continue
+						}
+						seenF[g] = true
+						next = append(next, g)
+					}
+				}
+				for _, g := range next {
+					if hasParam(g) {
+						fn = g
+						break
+					}
+				}
+				frontier = next
+			}
+		}
 		// the parameter: a float quotient that is compared with the constants 0 and 1
 		var tv ssa.Value
 		for _, b := range fn.Blocks {
